@@ -524,3 +524,22 @@ Section Time.
         * rewrite Hc. intros _. specialize (Hpos Hm). cbn [length] in Hpos. nia.
   Qed.
 End Time.
+
+(* ================= checkAlloc arithmetic (C07) ================= *)
+Lemma alloc_triggers_spec alloc maxalloc :
+  alloc_triggers alloc maxalloc = true <-> maxalloc <> 0 /\ maxalloc <= alloc.
+Proof.
+  unfold alloc_triggers. rewrite negb_true_iff, orb_false_iff, Z.eqb_neq, Z.ltb_ge. tauto.
+Qed.
+
+Lemma alloc_share_spec alloc maxalloc n :
+  0 < n -> maxalloc <= alloc ->
+  0 <= alloc_share alloc maxalloc n /\
+  n * alloc_share alloc maxalloc n <= alloc - maxalloc < n * (alloc_share alloc maxalloc n + 1).
+Proof.
+  intros Hn Hle. unfold alloc_share. rewrite Z.quot_div_nonneg by lia.
+  pose proof (Z.mul_div_le (alloc - maxalloc) n Hn) as H1.
+  pose proof (Z.mul_succ_div_gt (alloc - maxalloc) n Hn) as H2.
+  assert (H3 : 0 <= (alloc - maxalloc) / n) by (apply Z.div_pos; lia).
+  unfold Z.succ in H2. split; [exact H3|]. split; [exact H1|exact H2].
+Qed.
